@@ -217,10 +217,25 @@ def _build(c, fsize):
                         interpolator=interp)
 
 
+def _read(b, names, key):
+    """Read the public observables `names` of one Background2D object in a pseudo-random order derived from
+    `key` (the order of reads is part of every generated case; expected values do not depend on it)."""
+    order = list(names)
+    random.Random(key).shuffle(order)
+    out = {}
+    for n in order:
+        out[n] = np.array(getattr(b, n))
+    return out
+
+
+def _order_key(c, data, salt):
+    import zlib
+    return ((c.get('seed') or 0) * 1000003 + zlib.crc32(np.ascontiguousarray(data).tobytes()) * 31 + salt) & ((1 << 62) - 1)
+
+
 def run_impl(c):
-    """Public observables of the two objects (filter_size=1 and the requested one).
-    background_mesh is always read BEFORE background_rms_mesh (the opposite order with
-    filter_threshold set is DESIGN.md section-6 defect 8, owned by C09)."""
+    """Public observables of the two objects (filter_size=1 and the requested one), read in a case-dependent
+    pseudo-random order."""
     with warnings.catch_warnings():
         warnings.simplefilter('ignore')
         try:
@@ -230,16 +245,19 @@ def run_impl(c):
                 return None
             raise
         o = {}
-        o['b0'] = np.array(b1.background_mesh)
-        o['r0'] = np.array(b1.background_rms_mesh)
-        o['npix'] = np.array(b1.npixels_mesh)
-        o['excl'] = np.isnan(np.array(b1.background_mesh_masked))
+        r1 = _read(b1, ['background_mesh', 'background_rms_mesh', 'npixels_mesh', 'background_mesh_masked'],
+                   _order_key(c, c['data'], 1))
+        o['b0'], o['r0'], o['npix'] = r1['background_mesh'], r1['background_rms_mesh'], r1['npixels_mesh']
+        o['excl'] = np.isnan(r1['background_mesh_masked'])
         b2 = _build(c, c['fsize'])
-        o['bF'] = np.array(b2.background_mesh)
-        o['rF'] = np.array(b2.background_rms_mesh)
-        o['bmap'] = np.array(b2.background)
-        o['rmap'] = np.array(b2.background_rms)
-        o['bmed'] = float(b2.background_median)
+        r2 = _read(b2, ['background_mesh', 'background_rms_mesh', 'background', 'background_rms', 'background_median',
+                        'background_rms_median', 'npixels_mesh'], _order_key(c, c['data'], 2))
+        o['bF'], o['rF'] = r2['background_mesh'], r2['background_rms_mesh']
+        o['bmap'], o['rmap'] = r2['background'], r2['background_rms']
+        o['bmed'] = float(r2['background_median'])
+        o['rmed'] = float(r2['background_rms_median'])
+        if not np.array_equal(r2['npixels_mesh'], o['npix']):
+            o['npix'] = np.full_like(o['npix'], -1)      # reported by the oracle as an npixels_mesh mismatch
     return o
 
 
@@ -713,9 +731,12 @@ def _obs_rel(c, data, fthr=None, fsize=None):
             if ALLEXC in str(e):
                 return None
             raise
-        return [np.array(b.background_mesh), np.array(b.background_rms_mesh), np.array(b.npixels_mesh),
-                np.array(b.background), np.array(b.background_rms),
-                np.isnan(np.array(b.mesh_nmasked))]     # (background_mesh_masked cannot hold NaN for integer input)
+        r = _read(b, ['background_mesh', 'background_rms_mesh', 'npixels_mesh', 'background', 'background_rms',
+                      'mesh_nmasked', 'background_median', 'background_rms_median'],
+                  _order_key(c, data, 3 + 7 * c['fsize'][0] + c['fsize'][1]))
+        # (mesh_nmasked: background_mesh_masked cannot hold NaN for integer input)
+        return [r['background_mesh'], r['background_rms_mesh'], r['npixels_mesh'], r['background'], r['background_rms'],
+                np.isnan(r['mesh_nmasked']), r['background_median'], r['background_rms_median']]
 
 
 def _same(a, b):
@@ -747,12 +768,12 @@ def run_relations(c):
     # R1 mask-blindness (bit-exact)
     d2 = data.copy()
     for (y, x) in zip(*np.nonzero(hidden)):
-        d2[y, x] = rng.choice([np.nan, np.inf, -1e6, 12345.0, 0.0])
+        d2[y, x] = rng.choice([np.nan, np.inf, -np.inf, -1e6, 12345.0, 0.0, 3.0e38, -3.0e38, 2.0 ** 24, 2.0 ** 31 - 1])
     if not _same(base, _obs_rel(c, d2)):
         fails.append(('Background2D:mask-blind', f'outputs depend on values under mask/coverage_mask ({cfgname})'))
     if base is None:
         return fails, None
-    bm, rm, npx, bmap, rmap, excl = base
+    bm, rm, npx, bmap, rmap, excl = base[:6]
     f32 = data.dtype == np.float32
     ulp = _ulp(data.dtype)
 
@@ -893,7 +914,7 @@ def run_bigbox(c):
     base = _obs_rel(c, data.copy())
     if base is None:
         return [('Background2D:raises', f'all boxes excluded on a 5 % masked image ({cfg})')]
-    bm, rm, npx, bmap, rmap, excl = base
+    bm, rm, npx, bmap, rmap, excl = base[:6]
     d = data.astype(np.float32).astype(float) if not f64 else data.astype(float)
     ny, nx = d.shape
     by, bx = min(c['box'][0], ny), min(c['box'][1], nx)
@@ -1170,6 +1191,86 @@ def run_constant(c):
 
 
 # --------------------------------------------------------------------------
+# integer images: mask- and coverage-mask-blindness must be bitwise, whatever is stored under the masks
+# --------------------------------------------------------------------------
+INT_DTYPES = ['int32', 'uint16', 'int64', 'int16', 'uint32', 'uint8']
+
+
+def gen_intblind(seed, k):
+    rng = random.Random(seed)
+    g = np.random.default_rng(seed)
+    dtype = np.dtype(INT_DTYPES[k % len(INT_DTYPES)])
+    info = np.iinfo(dtype)
+    ny, nx = rng.randint(4, 28), rng.randint(4, 28)
+    box = (gen_box(rng, ny), gen_box(rng, nx))
+    top = min(info.max, 2 ** 31 - 1)
+    # data magnitudes from a few counts up to the top of the dtype (2**24 .. 2**31 for the wide ones)
+    level = (int(2.0 ** rng.uniform(12 if top > 2 ** 16 else 2, math.log2(top))) if rng.random() < 0.8
+             else rng.choice([2 ** 24 - 3, 2 ** 24, 10 ** 6, 16_000_000]))
+    level = max(0, min(level, top - 1))
+    amp = max(1, min(level // rng.choice([2, 16, 1024]), 2 ** 20, top - level))
+    data = level + g.integers(-amp if info.min < 0 or level >= amp else 0, amp + 1, (ny, nx))
+    data = np.clip(data, info.min, info.max).astype(dtype)
+    mk = rng.choice(['random', 'block', 'band', 'one', 'none'])
+    ck = rng.choice(['random', 'block', 'one', 'none', 'none'])
+    if mk == 'none' and ck == 'none':
+        mk = 'random'
+    c = dict(seed=seed, k=k, mdt=_mdt(seed), data=data, box=box, mask=None if mk == 'none' else _mask(rng, ny, nx, mk),
+             cov=None if ck == 'none' else _mask(rng, ny, nx, ck), p=rng.choice([10, 50, 90, 100]),
+             fsize=rng.choice([(1, 1), (3, 3), (3, 1)]), fthr=None, interp=rng.choice(['zoom', 'zoom', 'idw']),
+             fill=rng.choice([0.0, 7.0, -2.0 if info.min < 0 else 3.0]), sclip=rng.choice([None, 3.0]),
+             bkg=BKG[k % len(BKG)], rms=RMS[(k // 2) % len(RMS)], level=level)
+    if rng.random() < 0.4:
+        c['fthr'] = float(level)
+    return c
+
+
+def run_intblind(c):
+    """Two (three) runs that differ only in the values stored under mask / coverage_mask: every observable
+    (meshes, maps, medians, npixels, excluded set) must be bitwise identical."""
+    rng = random.Random(c['seed'] ^ 0x1b7)
+    data = c['data']
+    info = np.iinfo(data.dtype)
+    hidden = np.zeros(data.shape, bool)
+    for m in (c['mask'], c['cov']):
+        if m is not None:
+            hidden |= m
+    cfg = f"{data.dtype}/{data.shape}/box={c['box']}/level={c['level']}/{c['bkg']}/{c['rms']}/{c['interp']}/filter={c['fsize']}/thr={c['fthr']}/clip={c['sclip']}"
+    runs = []
+    for junk in (['like'], [0, 'like'], [info.max], [info.min, info.max, 0, 'like', min(info.max, 2 ** 31 - 1), min(info.max, 2 ** 24)]):
+        d = data.copy()
+        for (y, x) in zip(*np.nonzero(hidden)):
+            j = rng.choice(junk)
+            d[y, x] = data[rng.randrange(data.shape[0]), rng.randrange(data.shape[1])] if j == 'like' else j
+        runs.append((junk, _obs_rel(c, d)))
+    fails = []
+    names = ['background_mesh', 'background_rms_mesh', 'npixels_mesh', 'background', 'background_rms', 'excluded meshes',
+             'background_median', 'background_rms_median']
+    j0, o0 = runs[0]
+    for junk, o in runs[1:]:
+        if (o0 is None) != (o is None):
+            fails.append(('Background2D:mask-blind', f'"all boxes excluded" is raised or not depending on the values under '
+                          f'mask / coverage_mask (junk {junk}) ({cfg})'))
+            continue
+        if o0 is None:
+            continue
+        for n, a, b in zip(names, o0, o):
+            if not np.array_equal(a, b, equal_nan=True):
+                dev = float(np.max(np.abs(np.asarray(a, float) - np.asarray(b, float)))) if np.shape(a) == np.shape(b) else math.inf
+                fails.append(('Background2D:mask-blind', f'{n} changes (by up to {dev:.4g}) when the values under mask / '
+                              f'coverage_mask change from data-like to {junk} ({cfg})'))
+                break
+    if o0 is not None:
+        cov = c['cov'] if c['cov'] is not None else np.zeros(data.shape, bool)
+        for nm, mp in (('background', o0[3]), ('background_rms', o0[4])):
+            if mp.shape != data.shape or not np.all(np.isfinite(mp)):
+                fails.append(('Background2D:nonfinite-map', f'{nm} has the wrong shape or non-finite pixels ({cfg})'))
+            elif not np.all(mp[cov] == np.asarray(c['fill']).astype(mp.dtype)):
+                fails.append(('Background2D:coverage-fill', f'{nm} != fill_value on a coverage_mask pixel ({cfg})'))
+    return fails[:3], o0 is not None
+
+
+# --------------------------------------------------------------------------
 # worker: the same cases with bottleneck disabled
 # --------------------------------------------------------------------------
 def worker_main():
@@ -1319,9 +1420,9 @@ def run(ctx):
             for sig, msg in (interp_oracle(c, o['bF'], o['excl'], o['bmap'], 'background') +
                              interp_oracle(c, o['rF'], o['excl'], o['rmap'], 'background_rms')):
                 ctx.violation(sig, msg, {'case': describe(c)}, found_input=False)
-            if o['bmed'] != float(np.median(o['bF'])):
-                ctx.violation('Background2D:background_median', 'background_median != median(background_mesh)',
-                              {'case': describe(c)})
+            if o['bmed'] != float(np.median(o['bF'])) or o['rmed'] != float(np.median(o['rF'])):
+                ctx.violation('Background2D:background_median', 'background_median / background_rms_median != median of '
+                              'the corresponding mesh', {'case': describe(c)})
     ctx.sample({'case': describe(cases[0]),
                 'impl': None if impl[0] is None else {k: np.asarray(v).tolist() for k, v in impl[0].items()}})
     bad = ctx.coq_eval_cases(['C11_Model'], 'check_case', terms, case_type='case', shard_numerals=12000)
@@ -1440,6 +1541,23 @@ def run(ctx):
             ctx.violation(sig, msg, {'constant': sd, 'k': k})
     ctx.support('constant_image_arbitrary_constants_every_estimator_class', ncon)
 
+    # ---- integer images: bitwise mask / coverage-mask blindness ----
+    nint = 90 if quick else 900
+    for k in range(nint):
+        sd = ctx.rng.randrange(1 << 40)
+        c = gen_intblind(sd, k)
+        try:
+            jf, okmaps = run_intblind(c)
+        except Exception as e:  # noqa: BLE001
+            jf, okmaps = [('Background2D:raises:' + type(e).__name__, f'Background2D raised {e!r}'[:300])], False
+        ctx.stat('integer_mask_blind', str(c['data'].dtype))
+        ctx.stat('integer_mask_blind', 'level>=2^24' if c['level'] >= 2 ** 24 else ('level>=2^16' if c['level'] >= 2 ** 16 else 'level<2^16'))
+        ctx.stat('integer_mask_blind', 'maps' if okmaps else 'all_excluded_error')
+        ctx.count_case({'intblind': sd, 'k': k}, okmaps)
+        for sig, msg in jf:
+            ctx.violation(sig, msg, {'intblind': sd, 'k': k})
+    ctx.support('integer_dtype_mask_and_coverage_blind_bitwise', nint)
+
     # ---- everything again with bottleneck disabled ----
     kseeds = [c['seed'] for c in cases if c['seed'] is not None][: (150 if quick else 1200)]
     rsub = rel_seeds[: (108 if quick else 612)]
@@ -1494,6 +1612,8 @@ def replay(obj):
         fails = run_bigbox(gen_bigbox(r['bigbox'], r['k']))
     elif 'sequence' in r:
         fails = run_sequence(r['sequence'])
+    elif 'intblind' in r:
+        fails, _ = run_intblind(gen_intblind(r['intblind'], r['k']))
     elif 'constant' in r:
         fails, _ = run_constant(gen_constant(r['constant'], r['k']))
     elif d.get('relation'):
